@@ -168,6 +168,30 @@ def run(ctx, escalated=False):
                      "pgen": 0, "batch": ctx.rng.choice(BATCHES), "throttle": 0, "attempts": 1, "symlink": False})
         c.pgen = 0
         cases.append(c)
+    # a study whose stored form runs to more than a megabyte because of one step's command (a table
+    # written by a here-document): seeded change C18-n compressed pickles above 1 MiB on the way out
+    # and read them back uncompressed on the conductor's side
+    for j in range(1 if quick else 4):
+        nlines = ctx.rng.randint(30000, 60000)
+        table = "\n".join("%d %0.6f %d" % (i, ctx.rng.random(), ctx.rng.randint(0, 10 ** 9)) for i in range(nlines))
+        fat = {"description": {"name": "fat", "description": "a command that carries its own data"},
+               "global.parameters": {"N": {"values": [1, 2], "label": "N.%%"}},
+               "study": [{"name": "write", "description": "here-document",
+                          "run": {"cmd": "cat > table.dat <<EOF\n%s\nEOF\necho $(N)" % table}},
+                         {"name": "use", "description": "reads it",
+                          "run": {"cmd": "wc -l $(write.workspace)/table.dat", "depends": ["write"]}}]}
+        c = expprop.one_case(ctx, "fat%d" % j, adversarial=False, pgen=False, spec=fat)
+        if c is None or c.dag is None:
+            continue
+        c.data = {"id": "fat%d" % j, "kind": "handoff-large-command", "lines": nlines, "hash_ws": c.data["hash_ws"],
+                  "rlimit": c.data["rlimit"]}
+        c.lines, c.impl_out = [], []
+        spec = json.loads(json.dumps(fat))
+        spec["env"] = {"variables": {}}
+        jobs.append({"id": c.data["id"], "spec": spec, "hash_ws": c.data["hash_ws"], "rlimit": c.data["rlimit"],
+                     "pgen": 0, "batch": ctx.rng.choice(BATCHES), "throttle": 0, "attempts": 1, "symlink": False})
+        c.pgen = 0
+        cases.append(c)
     # a generator of the user's own through the real command: `maestro run --pgen FILE`, where FILE defines
     # a subclass of ParameterGenerator - the conductor's interpreter has never seen that file
     for j in range(3 if quick else 40):
